@@ -434,7 +434,9 @@ entry("C05", modules=["contracts.c05_decomp"],
                "presum(A,p,k) = sum_{i<k} A_i^p for a prefix, tailsum(A,p,n,k) = sum_{k<=i<n} A_i^p for a suffix",
                "leaf np.sum(mask) / xp.count_nonzero(mask): the number of True entries (count_gt, count_cumlt defined "
                "recursively); its boundary reading on a monotone mask is the proved lemma count-boundary",
-               "leaf xp.cumsum: entry k is presum(A,p,k+1); the last entry the total",
+               "leaf xp.cumsum: entry k is presum(A,p,k+1); the last entry the total; a one-element slice csp[..., k-1:k] / "
+               "csp[..., -1:] along the last axis holds that entry and broadcasts as a scalar (side conditions hi = lo+1 "
+               "and 0 <= lo < len are obligations)",
                "leaf np.abs / xp.abs elementwise; np.sqrt of a real: the non-negative root (rsqrt(x)^2 = x, rsqrt(x) >= 0 "
                "for x >= 0); x**(1/2) is that root; x**p for a symbolic exponent is the uninterpreted pw(x,p) with "
                "pw(x,p) >= 0 (> 0) for x >= 0 (> 0) and (x^(1/p))^p = x for x >= 0, p > 0",
@@ -485,12 +487,14 @@ entry("C05", modules=["contracts.c05_decomp"],
                   "p = 1, 2, symbolic p >= 3), _trim_and_renorm_svd_result_numba and the generic _trim_and_renorm_svd_result "
                   "against one functional spec (1 <= n <= len(s), n <= max_bond, n = min(rule, cap), kept values = f*s[:n], "
                   "error = sqrt(sum_{i>=n} s_i^2), factors = absorb-form of (U[:, :n], f*s[:n], VH[:n])), _do_absorb / "
-                  "_do_absorb_numba (11-code table, product = U diag(s) VH, isometric factors unscaled). On the unchanged tree "
-                  "the generic function fails `renorm-factor` for every (cutoff mode, renorm) with renorm != power of the "
-                  "mode and raises UnboundLocalError for abs / rel with renorm > 0 (finding 6a). fdx: parse_method_absorb / "
-                  "parse_split_opts total on the whole method x absorb x truncation table (2.3e5 executions), memo-key "
-                  "soundness per parameter of the three cached parsers (fails for renorm: finding 6b), isometry flags per "
-                  "(method, absorb) against the real drivers (fail for polar_right / polar_left / cholesky: finding 10), "
+                  "_do_absorb_numba (11-code table, product = U diag(s) VH, isometric factors unscaled). All 24 (cutoff mode, renorm) "
+                  "cases of the generic function discharge since the fix of finding 6a (before it: `renorm-factor` failed "
+                  "wherever renorm != power of the mode, UnboundLocalError for abs / rel with renorm > 0; the revert is a "
+                  "selftest mutant). fdx: parse_method_absorb / parse_split_opts total on the whole method x absorb x "
+                  "truncation table (2.3e5 executions), memo-key soundness per parameter of the three cached parsers with "
+                  "key equality decided by the real cache (discharged since parse_split_opts is lru_cache(typed=True): fix "
+                  "of finding 6b), isometry flags per (method, absorb) against the real drivers (fail for polar_right / "
+                  "polar_left / cholesky: finding 10, open), "
                   "consistency of _RETURNS_*_ABSORBS and _ABSORB_TRANSPOSE_MAP with _do_absorb.")
 _TG, _T1 = "quimb/tensor/tnag/tebd.py", "quimb/tensor/tn1d/tebd.py"
 entry("C11", modules=["contracts.c11_tebd"],
